@@ -33,6 +33,18 @@ def mfam(name, oracles, depth, **kw):
     return {'name': name, 'kind': 'managed_bse', 'cfg': cfg, 'crates': ['deadpool']}
 
 
+def ufam(name, oracles, depth, **kw):
+    cfg = {'oracles': tuple(oracles), 'depth': depth}
+    cfg.update(kw)
+    return {'name': name, 'kind': 'unmanaged_bse', 'cfg': cfg, 'crates': ['deadpool']}
+
+
+ALL_U = ('C05', 'C12')
+for _p in ALL_U:
+    meta(_p, 'model_checking', TECH, outside='histories longer than the depth bound, more tasks than listed, max_size above 2; Relaxed memory-ordering effects; interleavings finer than the schedule points',
+         assumptions=COMMON_ASSUME)
+
+
 def jobs_for(pid, tier, seed):
     q = tier == 'quick'
     J = []
@@ -101,6 +113,23 @@ def jobs_for(pid, tier, seed):
         J.append(mfam('no runtime: per-call timeouts', ['C10'], 5 if q else 7, tasks=2, env={'create': OE, 'recycle': OE}, runtime=False, timeout_variants=TV, take=False, cancel=False, probe=False, lifo=False))
         for pt in (('pos', None, None), (None, 'zero', None), (None, None, 'pos'), (None, None, None), ('zero', None, None)):
             J.append(mfam(f'no runtime: build() with configured timeouts {pt}', ['C10'], 2, tasks=1, env={'create': OE, 'recycle': OE}, runtime=False, pool_timeouts=pt, take=False, cancel=False, probe=False, lifo=False))
+    elif pid == 'C05':
+        GV = ['get', 'try_get', 'remove', 'try_remove']
+        J.append(ufam('new(): 2 tasks, get/try_get/remove/try_remove x add/try_add, take, cancel', ['C05'], 5 if q else 7, tasks=2, get_variants=GV, add_variants=['add', 'try_add'], ctl=('status',)))
+        J.append(ufam('from(Vec) with 2 objects: 3 tasks', ['C05'], 5 if q else 7, tasks=3, ctor='from_vec', initial=2, get_variants=['get', 'try_get'], add_variants=['try_add'], max_adds=1))
+        J.append(ufam('from_config: 2 tasks, timeout_get variants', ['C05'], 5 if q else 7, tasks=2, ctor='from_config', config_timeout='pos',
+                      get_variants=['get', ('timeout_get', 'zero'), ('timeout_get', 'pos'), ('timeout_get', None)], add_variants=['try_add', 'add']))
+        J.append(ufam('new(): 3 tasks, waiting adders and getters', ['C05'], 5 if q else 7, tasks=3, get_variants=['get', 'remove'], add_variants=['add'], take=True))
+        J.append(ufam('thread level: get/return/take/add interleaved at the schedule points', ['C05'], 12 if q else 16, tasks=2, thread_mode=True, ctor='from_vec', initial=1,
+                      get_variants=['try_get', 'get'], add_variants=['try_add'], max_adds=1, cancel=False))
+    elif pid == 'C12':
+        GV = ['get', 'try_get', 'remove', 'try_remove', ('timeout_get', 'zero')]
+        J.append(ufam('task level: close at any point, 2 tasks, all calls', ['C12'], 5 if q else 7, tasks=2, get_variants=GV, add_variants=['add', 'try_add'], ctl=('close', 'status'), max_ctl=2))
+        J.append(ufam('task level: from(Vec) 2 objects, close, returns after close', ['C12'], 6 if q else 8, tasks=2, ctor='from_vec', initial=2, get_variants=['get', 'try_get'], add_variants=['try_add'], max_adds=1, ctl=('close',)))
+        J.append(ufam('thread level: try_get / get racing close', ['C12'], 12 if q else 16, tasks=2, thread_mode=True, ctor='from_vec', initial=1, get_variants=['try_get', 'get'], add_variants=['try_add'], max_adds=0, ctl=('close',), cancel=False, take=False))
+        J.append(ufam('thread level: add / try_add racing close', ['C12'], 12 if q else 16, tasks=2, thread_mode=True, get_variants=['try_get'], add_variants=['try_add', 'add'], max_adds=2, ctl=('close',), cancel=False, take=False, max_gets=0))
+        J.append(ufam('thread level: return / take racing close', ['C12'], 12 if q else 16, tasks=2, thread_mode=True, ctor='from_vec', initial=2, prefix=(('uget', 'T1', 0), ('uget', 'T2', 0)),
+                      get_variants=['try_get'], add_variants=['try_add'], max_adds=0, ctl=('close',), cancel=False))
     elif pid == 'C08':
         J.append(mfam('1 task... 3 tasks returning in any order, fifo+lifo, rejects', ['C08'], 6 if q else 8, tasks=3, env={'create': ('ok',), 'recycle': OE}, cancel=False, probe=False))
         J.append(mfam('2 tasks + retain, fifo+lifo', ['C08'], 6 if q else 8, tasks=2, env={'create': ('ok',), 'recycle': OE}, ctl=('retain',), cancel=False, probe=False))
@@ -123,6 +152,9 @@ def jobs_for(pid, tier, seed):
     if pid in ALL_M:
         nv = 2 if q else 8
         for k in range(nv): J.append(vfam(25 if q else 60, k * 1000))
+    if pid in ALL_U or pid == 'C10':
+        for k in range(2 if q else 8): J.append({'name': f'translation validation, unmanaged ({40 if q else 100} traces, offset {k * 1000})', 'kind': 'validate_unmanaged',
+                                                 'cfg': {'traces': 40 if q else 100, 'offset': k * 1000}, 'crates': ['deadpool']})
     for i, j in enumerate(J):
         j['seed'] = seed; j['tier'] = tier; j['budget'] = 150 if q else 1500
     return J
@@ -158,6 +190,30 @@ def run(job):
         }
     if job['kind'] == 'validate_managed':
         return validate_managed(prog, job)
+    if job['kind'] == 'validate_unmanaged':
+        return validate_unmanaged(prog, job)
+    if job['kind'] == 'unmanaged_bse':
+        from . import w_unmanaged
+        cfg = job['cfg']
+        B = w_unmanaged.UnmanagedBSE(prog, cfg)
+        init = B.init_states()
+        R = explore.bfs(B, init, cfg['depth'], time_budget=job['budget'], seed=job['seed'], stop_on_violation=False)
+        S = B.M.stats
+        vios = []
+        for v, st in R.violations:
+            d = dict(v); d['trace'] = [list(map(str, e)) for e in st.log if e[0] in ('init', 'act', 'env')]
+            d['pc'] = [c.sexpr() for c in st.pc]; d['family'] = job['name']; d['cfg'] = _jsonable(cfg); d['crates'] = job['crates']; d['kind'] = 'unmanaged'
+            vios.append(d)
+        return {
+            'states': R.states, 'transitions': R.transitions, 'merged': R.merged, 'max_depth': R.max_depth, 'complete': R.complete,
+            'truncated': R.truncated if not R.complete else 0, 'violations': vios, 'samples': R.samples[:3],
+            'queries': S.queries, 'sat': S.sat, 'unsat': S.unsat, 'solver_s': round(S.solver_s, 3), 'cache_hits': S.cache_hits,
+            'blocks': S.blocks, 'functions': dict(S.fns), 'models': dict(S.models), 'dump_s': prog.dump_s,
+            'bounds': {'tasks': B.cfg['tasks'], 'depth': cfg['depth'], 'max_size': '0..=%d (symbolic)' % B.cfg['max_size_bound'], 'constructor': B.cfg['ctor'],
+                       'get_variants': _jsonable(B.cfg['get_variants']), 'add_variants': _jsonable(B.cfg['add_variants']), 'controller': _jsonable(B.cfg['ctl']),
+                       'mode': 'thread' if B.cfg['thread_mode'] else 'task', 'time_budget_s': job['budget']},
+            'summary': f'{R.states} states, {R.transitions} transitions, depth {R.max_depth}{"" if R.complete else " (budget reached)"}, {len(vios)} violation(s)',
+        }
     raise KeyError(job['kind'])
 
 
@@ -193,6 +249,39 @@ def validate_managed(prog, job):
     return {'validated': n, 'states': 0, 'transitions': 0, 'violations': [], 'samples': samples, 'complete': True,
             'summary': f'{n} random traces ({steps} steps) agree between engine and real crate', 'dump_s': prog.dump_s,
             'bounds': {'traces': n, 'length': '6..14 actions', 'max_size': '0..=3'}}
+
+
+def validate_unmanaged(prog, job):
+    import random
+    from . import replay, w_unmanaged
+    n = job['cfg']['traces']; bad = []; steps = 0; samples = []; t0 = time.time()
+    for k in range(n):
+        rng = random.Random(job['seed'] * 100003 + job['cfg']['offset'] + k)
+        thr = rng.choice([False, True])
+        cfg = {'tasks': rng.choice([1, 2, 3]), 'oracles': (), 'ctl': ('status', 'close'), 'max_ctl': 2, 'max_size_concrete': rng.choice([0, 1, 2, 3]),
+               'ctor': rng.choice(['new', 'from_config', 'from_vec']), 'initial': rng.choice([0, 1, 2]), 'runtime': (not thr) and rng.choice([True, False]),
+               'config_timeout': None if thr else rng.choice([None, 'zero', 'pos']),
+               'get_variants': ['get', 'try_get', 'remove', 'try_remove', ('timeout_get', 'zero'), ('timeout_get', None)] + ([] if thr else [('timeout_get', 'pos')]),
+               'add_variants': ['add', 'try_add'], 'thread_mode': thr}
+        if cfg['ctor'] == 'from_vec': cfg['max_size_concrete'] = cfg['initial']
+        B = w_unmanaged.UnmanagedBSE(prog, cfg)
+        st = rng.choice(B.init_states())
+        for i in range(rng.choice([8, 14, 30] if thr else [6, 10, 14])):
+            acts = B.actions(st)
+            if not acts: break
+            st = rng.choice(B.apply(st, rng.choice(acts)))
+        log = [list(map(str, e)) for e in st.log if e[0] in ('init', 'act', 'env')]
+        tr = replay.build_trace(_jsonable(cfg), log, {'max_size': cfg['max_size_concrete']}, kind='unmanaged')
+        nat = replay.run_native(tr); eng, _ = replay.run_engine(prog, tr)
+        d = replay.compare(nat, eng); steps += len(nat)
+        if d: bad.append({'trace': log, 'diff': d})
+        if k < 2: samples.append({'trace': [e for e in log if e[0] != 'env'][:12]})
+        if time.time() - t0 > job['budget']: n = k + 1; break
+    if bad:
+        raise RuntimeError(f'translation validation (unmanaged) failed on {len(bad)} of {n} traces: {bad[0]["diff"]} -- trace {bad[0]["trace"]}')
+    return {'validated': n, 'states': 0, 'transitions': 0, 'violations': [], 'samples': samples, 'complete': True,
+            'summary': f'{n} random traces ({steps} steps, task and thread mode) agree between engine and real crate', 'dump_s': prog.dump_s,
+            'bounds': {'traces': n, 'length': '6..30 steps', 'max_size': '0..=3'}}
 
 
 def vfam(n, offset=0):
